@@ -15,7 +15,9 @@ RULE = ("Greenlet parent chains of 1..5 greenlets (each the child of the previou
         "entry function to switch point, whoever asks; current: exactly its own portion of the running stack up to the caller; "
         "unstarted/dead: no frames; other thread: an error and no frames; extract_outermost agrees. greenback under Trio: "
         "sync/async alternation depth 0..5, extraction from outside the task and from inside it; the harness-file frames must "
-        "be, in order, exactly the generated call chain and every frame executing greenback.await_ is hidden. CPython 3.12 "
+        "be, in order, exactly the generated call chain, every frame executing greenback.await_ is hidden and so is every "
+        "other frame between two frames of the chain (the bridging internals); the same under asyncio, where coroutines are "
+        "resumed through the error path (each level first awaits a failing future). CPython 3.12 "
         "(the only interpreter here with greenlet/greenback/trio). Non-trivial: chain of >= 2 greenlets inspected from a "
         "descendant, or alternation depth >= 2; distinct = distinct IR.")
 ASSUMPTIONS = [
@@ -54,6 +56,13 @@ def shard(arg):
             v = check(ws, {"op": "green.greenback", "depth": depth}, out, case, depth >= 2, ["greenback", "greenback.depth.%d" % depth])
             if v:
                 out.violation(v[0]["desc"], case, "3.12", obs=v[0].get("obs"))
+        for depth in arg["gb_depths"]:
+            for err in (True, False):
+                case = {"greenback_asyncio_depth": depth, "error_resume": err}
+                v = check(ws, {"op": "green.greenback_asyncio", "depth": depth, "error_resume": err}, out, case, depth >= 2,
+                          ["greenback_asyncio", "greenback_asyncio.error_resume" if err else "greenback_asyncio.value_resume"])
+                if v:
+                    out.violation(v[0]["desc"], case, "3.12", obs=v[0].get("obs"))
         if arg["other_thread"]:
             case = {"other_thread": True}
             v = check(ws, {"op": "green.other_thread"}, out, case, True, ["other_thread"])
@@ -84,7 +93,9 @@ def replay(ctx, data):
     out = Outcome()
     case = data["case"]
     with WorkerSet(INTERPS, hooks=False) as ws:
-        if "greenback_depth" in case:
+        if "greenback_asyncio_depth" in case:
+            req = {"op": "green.greenback_asyncio", "depth": case["greenback_asyncio_depth"], "error_resume": case["error_resume"]}
+        elif "greenback_depth" in case:
             req = {"op": "green.greenback", "depth": case["greenback_depth"]}
         elif "other_thread" in case:
             req = {"op": "green.other_thread"}
